@@ -854,6 +854,33 @@ def _entry_order_probe():
     return None
 
 
+def _generator_reuse_probe():
+    """one numpy Generator given as seed to mackey_glass and then REUSED for narma and an initialiser: the whole experiment repeated with a fresh default_rng(same seed)
+    gives the same bytes (a dataset generator consumes the caller's generator the same way every time, cached or not)"""
+    rpy()
+    import reservoirpy.datasets as ds_
+    from reservoirpy import mat_gen as mg_
+    sc = {"check": "generator-reuse"}
+
+    def experiment():
+        g = np.random.default_rng(20240930)
+        a = np.asarray(ds_.mackey_glass(60, seed=g))
+        b = np.asarray(ds_.narma(40, seed=g))
+        w = mg_.normal(5, 5, seed=g)
+        w = w.toarray() if hasattr(w, "toarray") else np.asarray(w)
+        return a.tobytes(), b.tobytes(), w.tobytes()
+    try:
+        e1 = experiment(); e2 = experiment(); e3 = experiment()
+    except Exception as ex:  # noqa: BLE001
+        return _viol("generator-reuse:exception", "mackey_glass / narma / normal with one Generator as seed raise %r" % (ex,), sc)
+    names = ["mackey_glass", "narma", "normal"]
+    bad = [n for n, x, y, z in zip(names, e1, e2, e3) if not (x == y == z)]
+    if bad:
+        return _viol("generator-seed:consumption-depends-on-history", "the same experiment (one default_rng(20240930) passed to mackey_glass, then narma, then normal) repeated three times "
+                     "in one process gives different %s: a generator passed as seed is not consumed the same way at every call" % bad, sc)
+    return None
+
+
 def oracle(ctx, scale=1):
     rng = ctx.rng("oracle")
     rpy()
@@ -875,6 +902,10 @@ def oracle(ctx, scale=1):
         if v:
             viol.append(v)
         v = _entry_order_probe()
+        ev += 1
+        if v:
+            viol.append(v)
+        v = _generator_reuse_probe()
         ev += 1
         if v:
             viol.append(v)
@@ -1089,6 +1120,9 @@ def replay(payload):
     sc = payload.get("scenario") or {}
     if "ops" in sc:
         v = _judge_history(sc)
+        return {"violates": bool(v), "detail": v}
+    if sc.get("check") == "generator-reuse":
+        v = _generator_reuse_probe()
         return {"violates": bool(v), "detail": v}
     if sc.get("check") == "entry-order":
         v = _entry_order_probe()
